@@ -500,6 +500,9 @@ func (h *hist) apply(op *opDef, ins []*entry) {
 	// bound the pool: forget random older values (they are no longer "live")
 	for len(h.pool) > h.maxLive {
 		i := h.n(len(h.pool))
+		if k := h.pool[i].kind; (k == kMapB || k == kSetB) && len(h.byKind(k)) <= 1 {
+			continue // keep one builder of each sort around so that use after Build happens
+		}
 		h.pool = append(h.pool[:i:i], h.pool[i+1:]...)
 		h.w.Add("values.forgotten", 1)
 	}
@@ -599,7 +602,7 @@ func main() {
 			if tier == "thorough" {
 				return 250
 			}
-			return 100
+			return 250
 		},
 		RaceBatch: func(tier string, b int) bool { return tier == "thorough" && b%10 == 0 },
 		Run: func(w *vrt.W) {
